@@ -172,6 +172,7 @@ type tr struct {
 	loopIdx  int
 	inLoop   bool
 	loopDone bool
+	locals   map[string]*expr // string-valued locals defined once by `name := <string-building expression>`
 	broken   []string
 }
 
@@ -238,6 +239,11 @@ func (t *tr) strExpr(e ast.Expr) *expr {
 	switch x := e.(type) {
 	case *ast.ParenExpr:
 		return t.strExpr(x.X)
+	case *ast.Ident:
+		// a local defined once by `name := <string-building expression>` stands for that expression
+		if v, ok := t.locals[x.Name]; ok {
+			return v
+		}
 	case *ast.BasicLit:
 		if x.Kind == token.STRING {
 			s, err := strconv.Unquote(x.Value)
@@ -304,7 +310,35 @@ func (t *tr) compileCall(e ast.Expr, res *result) bool {
 	}
 	sargs, ok := t.pkgCall(args[0], "fmt", "Sprintf")
 	if !ok || len(sargs) < 1 {
-		t.brk(e.Pos(), "formTokenMatcher: the argument of regexp.MustCompile is not fmt.Sprintf(format, …)")
+		// the same text spelled as a concatenation (possibly through named intermediates): canonical form =
+		// the literal stretches as the format (a literal % doubled) and one %s per non-literal piece
+		{
+			if x := t.strExprQuiet(args[0]); x != nil {
+				var leaves []*expr
+				var flat func(e *expr)
+				flat = func(e *expr) {
+					if e.kind == "cat" {
+						flat(e.a)
+						flat(e.b)
+						return
+					}
+					leaves = append(leaves, e)
+				}
+				flat(x)
+				var fb strings.Builder
+				for _, l := range leaves {
+					if l.kind == "lit" {
+						fb.WriteString(strings.ReplaceAll(l.s, "%", "%%"))
+						continue
+					}
+					fb.WriteString("%s")
+					res.args = append(res.args, rightAssoc(l))
+				}
+				res.format = fb.String()
+				return true
+			}
+		}
+		t.brk(e.Pos(), "formTokenMatcher: the argument of regexp.MustCompile is neither fmt.Sprintf(format, …) nor a concatenation of string-building expressions")
 		return true
 	}
 	f := t.strExpr(sargs[0])
@@ -315,7 +349,8 @@ func (t *tr) compileCall(e ast.Expr, res *result) bool {
 		t.brk(sargs[0].Pos(), "formTokenMatcher: the format of fmt.Sprintf is not a string literal")
 		return true
 	}
-	res.format = f.s
+	// %v and %s print a string alike (every argument of the vocabulary is a string): one canonical verb
+	res.format = canonVerbs(f.s)
 	for _, a := range sargs[1:] {
 		x := t.strExpr(a)
 		if x == nil {
@@ -347,6 +382,34 @@ func (t *tr) function(fd *ast.FuncDecl) *result {
 		}
 		switch s := st.(type) {
 		case *ast.AssignStmt:
+			if s.Tok == token.DEFINE && len(s.Lhs) > 1 && len(s.Lhs) == len(s.Rhs) && !seenCompile {
+				// a, b := <string-building expression>, <string-building expression>
+				all := true
+				defs := map[string]*expr{}
+				for i := range s.Lhs {
+					name, _ := s.Lhs[i].(*ast.Ident)
+					if name == nil {
+						all = false
+						break
+					}
+					if _, dup := t.locals[name.Name]; dup {
+						all = false
+						break
+					}
+					x := t.strExprQuiet(s.Rhs[i])
+					if x == nil {
+						all = false
+						break
+					}
+					defs[name.Name] = x
+				}
+				if all {
+					for k, v := range defs {
+						t.locals[k] = v
+					}
+					continue
+				}
+			}
 			if s.Tok == token.DEFINE && len(s.Lhs) == 1 && len(s.Rhs) == 1 {
 				name, _ := s.Lhs[0].(*ast.Ident)
 				if name != nil && t.exclVar == "" && t.isEmptyStringSlice(s.Rhs[0]) {
@@ -356,6 +419,14 @@ func (t *tr) function(fd *ast.FuncDecl) *result {
 				if name != nil && !seenCompile && t.compileCall(s.Rhs[0], res) {
 					compiled, seenCompile = name.Name, true
 					continue
+				}
+				if name != nil && !seenCompile {
+					if _, dup := t.locals[name.Name]; !dup {
+						if x := t.strExprQuiet(s.Rhs[0]); x != nil {
+							t.locals[name.Name] = x
+							continue
+						}
+					}
 				}
 			}
 			t.brk(st.Pos(), "formTokenMatcher: the statement `%s` is not understood", firstLine(t.src(st)))
@@ -476,7 +547,7 @@ func generate(srcPath, modelFile string) (content, pattern string, broken []stri
 	if err != nil {
 		return "", "", nil, err
 	}
-	t := &tr{fset: fset, imports: map[string]string{}}
+	t := &tr{fset: fset, imports: map[string]string{}, locals: map[string]*expr{}}
 	for _, im := range f.Imports {
 		path, _ := strconv.Unquote(im.Path.Value)
 		name := filepath.Base(path)
@@ -638,4 +709,34 @@ func (t *tr) diagnose(modelFile string, res *result) {
 
 func commentSafe(s string) string {
 	return strings.ReplaceAll(strings.ReplaceAll(s, "-/", "- /"), "/-", "/ -")
+}
+
+// strExprQuiet is strExpr without a BROKEN line when the expression is outside the vocabulary.
+func (t *tr) strExprQuiet(e ast.Expr) *expr {
+	n := len(t.broken)
+	x := t.strExpr(e)
+	if x == nil {
+		t.broken = t.broken[:n]
+	}
+	return x
+}
+
+// canonVerbs rewrites the verb %v to %s (outside %%).
+func canonVerbs(f string) string {
+	var sb strings.Builder
+	for i := 0; i < len(f); i++ {
+		if f[i] == '%' && i+1 < len(f) {
+			if f[i+1] == 'v' {
+				sb.WriteString("%s")
+				i++
+				continue
+			}
+			sb.WriteByte(f[i])
+			sb.WriteByte(f[i+1])
+			i++
+			continue
+		}
+		sb.WriteByte(f[i])
+	}
+	return sb.String()
 }
